@@ -85,13 +85,18 @@ func RenderWith(e *liquid.Engine, src string, b map[string]any) (o Outcome) {
 		}
 		var tpl *liquid.Template
 		var err liquid.SourceError
+		buf := []byte(src)
 		switch variant {
 		case 0:
 			tpl, err = e.ParseString(src)
 		case 1:
-			tpl, err = e.ParseTemplate([]byte(src))
+			tpl, err = e.ParseTemplate(buf)
 		default:
-			tpl, err = e.ParseTemplateLocation([]byte(src), "", 0)
+			tpl, err = e.ParseTemplateLocation(buf, "", 0)
+		}
+		// the caller's buffer is the caller's: overwriting it after the parse must not matter
+		for i := range buf {
+			buf[i] = '#'
 		}
 		if err != nil {
 			o.Err, o.ParseErr = err, true
